@@ -43,7 +43,7 @@ def bounds(tier, seed):
         "interaction_values": "pairwise distinct, mixed sign; and for N=3..5, dim 2, every pattern with >= 2 entries again with equal-magnitude alternating-sign values (row sums cancel exactly)",
         "types": ["rydberg", "xy"],
         "dims": [2, 3],
-        "transitions_per_pattern": 3,
+        "transitions_per_pattern": "4 chained in-place updates (the last one changes only the phases)",
     }
 
 
@@ -111,7 +111,8 @@ def run_case(case):
             dim=dim,
             num_gpus_to_use=0,
         )
-    steps = [("update1", p1, zero), ("update2+noise", p2, noise), ("update3-back", p1, zero)]
+    ph_only = (p1[0], p1[1], [v + 0.8 for v in p1[2]])  # same amplitudes, detunings and noise term as the previous update, other phases
+    steps = [("update1", p1, zero), ("update2+noise", p2, noise), ("update3-back", p1, zero), ("update4-phase-only", ph_only, zero)]
     worst = 0.0
     for name, (om, de, ph), nz in steps:
         update_H(hamiltonian=H, omega=t(om), delta=t(de), phi=t(ph), noise=t(nz).clone())
@@ -128,7 +129,7 @@ def run_case(case):
                 msg=f"MPO != dense Hamiltonian after {name}: pattern={pat:b} U={U.tolist()} "
                 f"max rel err {err:.3e} at {idx}: got {got[idx]} ref {ref[idx]}",
                 outcome="mismatch",
-                transitions=3,
+                transitions=4,
             )
     bond = [f.shape[-1] for f in H.factors[:-1]]
-    return result(True, outcome=["ok", bond], transitions=3, nontrivial=pat != 0)
+    return result(True, outcome=["ok", bond], transitions=4, nontrivial=pat != 0)
